@@ -120,6 +120,13 @@ reg('C12',
     'energy, and of linear momentum minus M g t for free-floating trees, over a fixed 0.064 s horizon halves with the step and extrapolates to zero (1e-5 relative). Sampling, not proof.',
     'energy read through the state\'s own mass matrix; momentum through mass_mx @ qd on the root translation dofs', 'DESIGN.md section 4 C12')
 
+reg('C04',
+    'property-based testing (Hypothesis model generator): invariant over a generated history (total momentum balance after every step of a lax.scan rollout) + rest invariant over one step',
+    'No counter-example: for free-rooted generated models with any joint stacks, limits and actuators under drawn control sequences, and for two-body collision scenes, the total '
+    'linear momentum of the spring and positional pipelines changes by exactly M g dt in every step (1e-9 of the summed link momenta; measured 1e-13), up to the first non-finite step; '
+    'a system at rest without gravity, control or contact stays at rest in all three pipelines (spring/positional asserted on the stacks they implement, the rest matched against the known finding). Sampling, not proof.',
+    'momentum computed from the state\'s own xd_i and mass; default vel_damping 0', 'DESIGN.md section 4 C04')
+
 PENDING = {}
 
 
